@@ -84,7 +84,7 @@ def check_retpair(ck, rule: str, repo, fi: FunctionInfo) -> int:
         if not isinstance(s, ast.Return) or not isinstance(s.value, ast.Tuple) or len(s.value.elts) < 2:
             continue
         first = s.value.elts[0]
-        if not isinstance(first, ast.Name) or P.is_int_like(first):
+        if P.is_int_like(first) or isinstance(first, (ast.Call, ast.Attribute, ast.Tuple, ast.List)):
             continue
         for other in s.value.elts[1:]:
             vs = P.value_gather_sigs(other, s) if isinstance(other, (ast.Call, ast.Name)) else []
@@ -94,7 +94,7 @@ def check_retpair(ck, rule: str, repo, fi: FunctionInfo) -> int:
             ms = P.sig(first, s)
             bad = [(sigs, a) for sigs, a in vs if sigs != {ms}]
             if not bad:
-                ck.holds(rule, fi, s, f"returned mask {first.id} is the mask used to select the rows predicted")
+                ck.holds(rule, fi, s, f"returned mask {src_of(first)} is the mask used to select the rows predicted")
             else:
                 sigs, a = bad[0]
                 ck.violated(rule, fi, s, f"returns mask {fmt_sigs({ms})} together with predictions for rows {fmt_sigs(sigs)}: the caller scatters them to the wrong rows")
